@@ -56,6 +56,11 @@ CONFUSABLE_TREES = {
 		'types.cats': 'using Weight = uint16\n',
 		'types.cats.cats': 'using Key = binary_fixed(32)\n',
 	},
+	'single-import-files': {
+		'root.cats': 'import "forward.cats"\n',
+		'forward.cats': 'import "types.cats"\n',
+		'types.cats': 'using Amount = uint64\n\nstruct Holder\n\tamount = Amount\n',
+	},
 	'imported-twice': {
 		'root.cats': 'import "left.cats"\nimport "right.cats"\n\nstruct Root\n\tleft = Left\n\tright = Right\n',
 		'left.cats': 'import "leaf.cats"\n\nstruct Left\n\tamount = Amount\n',
@@ -81,6 +86,31 @@ def cli_run(files, scratch, tag):
 	exists = out.exists()
 	shutil.rmtree(root)
 	return status, exists, output[-400:]
+
+
+def cli_rerun(first_files, second_files, scratch, tag):
+	"""Runs the command line on a well-formed tree, then changes files IN the same directory and runs it again with the same output
+	path (what a build does after an edit); returns (first status, second status, tail of the second output)."""
+	import os
+	import time
+	root = scratch / tag
+	if root.exists():
+		shutil.rmtree(root)
+	out = root / 'out.yaml'
+	command = [sys.executable, '-m', 'catparser', '--schema', str(root / 'schemas' / 'root.cats'), '--include', str(root / 'schemas'),
+		'--output', str(out), '--quiet']
+	for name, text in first_files.items():
+		path = root / 'schemas' / name
+		path.parent.mkdir(parents=True, exist_ok=True)
+		path.write_text(text, encoding='utf8')
+		os.utime(path, (time.time() - 3600, time.time() - 3600))     # the sources are older than the first output
+	first_status, _ = common.run(command, 120, cwd=root, env=common.impl_env())
+	for name, text in second_files.items():
+		if first_files.get(name) != text:
+			(root / 'schemas' / name).write_text(text, encoding='utf8')
+	second_status, output = common.run(command, 120, cwd=root, env=common.impl_env())
+	shutil.rmtree(root)
+	return first_status, second_status, output[-400:]
 
 
 def run(check, unrecognised):
@@ -169,6 +199,24 @@ def run(check, unrecognised):
 						f'output file {"written" if exists else "absent"}',
 						{'case': {'cli': True, 'files': files, 'file': name, 'operator': operator, 'site': len(text.split(chr(10))) - 1},
 							'how': 'run.py replay <this file>: writes the tree to a scratch directory and runs python -m catparser'})
+		# a second run in the same directory after one imported file has been corrupted (stale outputs, time stamps, caches)
+		for name in sorted(VALID_TREE):
+			options = list(c04.corruptions(VALID_TREE[name], rng, 1))
+			if not options:
+				continue
+			operator, site, bad_text = rng.choice(options)
+			files = dict(VALID_TREE)
+			files[name] = bad_text
+			first_status, second_status, tail = cli_rerun(VALID_TREE, files, scratch, 'rerun')
+			check.case(f'cli:rerun:{name}:{operator}', f'{name}:{operator}:{site}')
+			if first_status != 0:
+				check.notes.append(f'CLI rerun scenario: the first run on the uncorrupted tree exits {first_status}')
+				check.broken.append('cli-control-run')
+			elif second_status == 0 or second_status is None:
+				check.fail(f'cli:rerun:{operator}:exit-0',
+					f'python -m catparser run again in the same directory after {name} was corrupted by `{operator}` at line {site + 1}: '
+					f'exit status {second_status} (the first run, on the well-formed tree, had written the output file)',
+					{'case': {'cli': True, 'rerun': True, 'first': VALID_TREE, 'files': files, 'file': name, 'operator': operator, 'site': site}})
 		# every file of every confusable tree, corrupted in turn (the others intact)
 		for tree_name, tree in CONFUSABLE_TREES.items():
 			status, exists, tail = cli_run(tree, scratch, f'control-{tree_name}')
@@ -198,6 +246,17 @@ def run(check, unrecognised):
 
 def replay(data):
 	case = data['replay']['case']
+	if case.get('rerun'):
+		scratch = common.scratch_dir('c11-replay')
+		try:
+			first_status, second_status, tail = cli_rerun(case['first'], case['files'], scratch, 'replay')
+		finally:
+			shutil.rmtree(scratch, ignore_errors=True)
+		print(f'first run exit status {first_status}, second run (after the corruption) exit status {second_status}')
+		print(tail)
+		bad = second_status == 0
+		print('property:', 'fails' if bad else 'holds')
+		return 1 if bad else 0
 	if case.get('cli'):
 		scratch = common.scratch_dir('c11-replay')
 		try:
